@@ -1145,3 +1145,83 @@ def facts_imply(facts: Set[Tuple[str, bool]], goal: str, fixed=None) -> bool:
         if all(_bool_eval(e, v) == p for p, e in parsed) and not _bool_eval(ge, v):
             return False
     return True
+
+
+# --------------------------------------------------------------------------- locals are assigned before they are read
+def definitely_assigned(ctx, modnames: Iterable[str], why: str, exempt: Dict[str, str] = {}) -> int:
+    """Every read of a local that is bound by plain assignments only is preceded by an assignment on every path - or by an
+    assignment made under conditions that all still hold at the read (`if v3: d = f()` ... `if v3: use(d)`). A read that can
+    come first raises UnboundLocalError out of the function (typically after one of several identical definitions was
+    removed as redundant). Names bound by loops, comprehensions, `with`, `except` or `:=` are left alone; `exempt` maps
+    `function/name` to the reason a remaining correlated-condition pattern is safe."""
+    repo = ctx.repo
+    n_funcs = 0
+    for m in modnames:
+        for f in repo.funcs_in(m):
+            fn = f.node
+            if not isinstance(fn, ast.FunctionDef):
+                continue
+            own = [n for n in own_nodes(repo, f)]
+            params = {a.arg for a in ast.walk(fn.args) if isinstance(a, ast.arg)}
+            glob = {nm for n in own if isinstance(n, (ast.Global, ast.Nonlocal)) for nm in n.names}
+            stores: Dict[str, List[ast.Name]] = {}
+            special: Set[str] = set()
+            for n in own:
+                if isinstance(n, ast.Name) and isinstance(n.ctx, ast.Store) and n.id not in params and n.id not in glob:
+                    stores.setdefault(n.id, []).append(n)
+                if isinstance(n, (ast.For, ast.comprehension)):
+                    special |= {x.id for x in ast.walk(n.target) if isinstance(x, ast.Name)}
+                elif isinstance(n, ast.ExceptHandler) and n.name:
+                    special.add(n.name)
+                elif isinstance(n, ast.With):
+                    for it in n.items:
+                        if it.optional_vars is not None:
+                            special |= {x.id for x in ast.walk(it.optional_vars) if isinstance(x, ast.Name)}
+                elif isinstance(n, ast.NamedExpr):
+                    special.add(n.target.id)
+                elif isinstance(n, (ast.Import, ast.ImportFrom)):
+                    special |= {(a.asname or a.name).split(".")[0] for a in n.names}
+                elif isinstance(n, (ast.FunctionDef, ast.ClassDef)) and n is not fn:
+                    special.add(n.name)
+            names = {k for k in stores if k not in special}
+            if not names:
+                continue
+            n_funcs += 1
+
+            def events(st, names=names):
+                if isinstance(st, (ast.If, ast.For, ast.While, ast.With, ast.Try)):
+                    return []
+                return [f"d:{x.id}" for x in ast.walk(st) if isinstance(x, ast.Name) and isinstance(x.ctx, ast.Store) and x.id in names]
+            fl = Flow(fn, events=events, track_guards=False).run()
+            flg = None
+            bad: Dict[str, ast.Name] = {}
+            for n in own:
+                if not (isinstance(n, ast.Name) and isinstance(n.ctx, ast.Load) and n.id in names):
+                    continue
+                # reads inside nested functions / lambdas / comprehensions run later
+                st = repo.enclosing_stmt(n)
+                evs = fl.events_at(st)
+                if evs is None or f"d:{n.id}" in evs:
+                    continue
+                # same statement defines and reads (x = x + 1 without a prior definition is still an error) - fall through
+                if flg is None:
+                    flg = Flow(fn, resolver=Resolver(fn)).run()
+                here = flg.guards_at(st) or set()
+                ok = False
+                for d in stores[n.id]:
+                    ds = repo.enclosing_stmt(d)
+                    if ds.lineno >= st.lineno:
+                        continue
+                    dg = flg.guards_at(ds)
+                    if dg is not None and dg and set(dg) <= set(here):
+                        ok = True
+                        break
+                if not ok and f"{f.short}/{n.id}" not in exempt:
+                    bad.setdefault(n.id, n)
+            construct = f"{f.short}/locals are assigned before they are read"
+            if bad:
+                nm, node = sorted(bad.items())[0]
+                ctx.bad(construct, f"`{nm}` can be read at line {node.lineno} before any assignment on some path: UnboundLocalError - {why}", f.loc(node))
+            else:
+                ctx.ok(construct, f.loc(), nontrivial=False)
+    return n_funcs
